@@ -9,6 +9,7 @@ import SdxProofs.ValueMap
 import Props.C01
 import Props.C08
 import Props.C07Nulls
+import Props.C07Init
 /-!
 # C07 — Any supported table synthesizes; schema, dtypes and value domains preserved
 
